@@ -6,26 +6,32 @@ from vlib import hexs, unhex
 META = dict(
     property_id='C18',
     design_ref='DESIGN.md section 4, C18',
-    technique='Coq proof (crash-state model of the two write calls, per-sector write-back; CRC-32 bit model) + extracted-model '
-              'correspondence on the real session_file_storage with interposed write()/time()',
+    technique='Coq proof (crash-state model of the two write calls, per-sector write-back; CRC-32 bit model; invariant over histories) + '
+              'extracted-model correspondence on the real session_file_storage with interposed write()/time()',
     level_text=('Theorems in coq/C18/Props.v over an executable model of session_file_storage (record layout, save_to_file/write_all, '
-                'read_from_file/read_all incl. the int-typed byte counts, load+unlink, gc/read_timestamp, CRC-32 bit by bit): for every old '
-                'file (empty or >= 16 bytes), every save (payload < 2^31 bytes), every crash state (each 512-byte sector independently holds '
-                'the state after 0 or >= 16 bytes of the header+data stream; no truncation) and every clock > 0, load returns nothing, the '
-                'new value, what the old file gave, or an explicitly characterised CRC-32 collision (length and CRC of the header it is read '
-                'under, every byte from the old file or the new payload); the unconditional statement is refuted by a concrete 6-byte witness '
-                '(KNOWN FINDING torn-write-crc32-collision, replayed on the real storage on every run). Without a crash save-then-load returns '
-                'the value iff not expired; over every history of saves/crashes/removes/loads/gc a returned deadline, length and CRC are those '
-                'of some earlier save; gc removes exactly the 32-hex-named files whose timestamp is unreadable or past and never a readable '
-                'live record; load removes what it cannot read; a corruption confined to 4 consecutive bytes is always detected by the CRC. '
-                'The bundled CRC table of private/crc32.h is regenerated from source and proved equal to the bit model; the zlib path, the '
-                'write sequence and every other code path are tied by running the extracted model and the real storage on the same scripts.'),
+                'read_from_file/read_all incl. the int-typed byte counts, load+unlink, remove, gc/read_timestamp, CRC-32 bit by bit): for every old '
+                'file (absent/empty or >= 16 bytes), every save (payload < 2^31 bytes), every crash state (each 512-byte sector independently holds '
+                'the state after 0 or >= 16 bytes of the header+data stream; no truncation; holes read as zero) and every clock > 0, load returns '
+                'nothing, the new value, what the old file gave, or an explicitly characterised CRC-32 collision (deadline, length and CRC of the '
+                'header it is read under, every byte the old file byte / new payload byte / hole zero at its position, and not the value that '
+                'header was written for); the unconditional statement is refuted by a concrete 6-byte witness (KNOWN FINDING '
+                'torn-write-crc32-collision, replayed on the real storage on every run). What load returns lies inside the file and has the '
+                'length of the header. Without a crash save-then-load returns the value iff not expired, over any old file. By induction over '
+                'every history of saves/crashed saves/removes/loads/gc: the file is empty, starts with a zero hole or with the header of an earlier '
+                'save, so the crash theorem applies at every point and any value ever returned carries the deadline, length and CRC of some '
+                'earlier save. gc keeps exactly the entries whose name is not 32 hex digits or whose timestamp is readable and not past, never '
+                'removes a record that load would accept, never touches foreign names; load removes what it cannot read and nothing else. The '
+                'bundled CRC table of private/crc32.h is regenerated from source and proved equal to the bit model, and the table-driven loop is '
+                'proved equal to the bit-by-bit CRC; the zlib path, the write sequence and every other code path are tied by running the '
+                'extracted model and the real storage on the same scripts.'),
     level_note=('Trusted: Coq kernel + vm_compute; ExtrOcamlBasic extraction; the hand model of the C++ control flow (tied by '
                 'correspondence only, the only source-generated leaf is the CRC table); the crash model itself (sector = 512 bytes, header '
                 'atomic, write-back of a sector shows a prefix of the write stream, unwritten bytes of an extended file read as zero, no '
                 'reordering across fsync because there is none); harness materialises crash states from the recorded write() calls of the '
-                'real save. Not covered: short writes/ENOSPC (write_all does not advance its buffer), fcntl locking across processes, '
-                'headers whose size field is >= 2^31 are modelled but never executed (2-4 GiB allocation), payloads >= 2^31 bytes.'),
+                'real save. Not covered: short writes/ENOSPC (write_all does not advance its buffer), fcntl locking across processes and the '
+                'per-sid mutex (single-threaded scripts; both lock modes are executed), headers whose size field is >= 2^31 are modelled but '
+                'never executed (2-4 GiB allocation), payloads >= 2^31 bytes, an old file of 1..15 bytes (cannot arise from saves or their '
+                'crash states, proved), clock <= 0.'),
 )
 
 GEN = {
@@ -270,7 +276,167 @@ def gen_cases(ctx):
             d_n = force_crc(base[:kcut] + rb(rng, 4) + base[kcut + 4:], kcut, zlib.crc32(d_o))
             if d_n != d_o:
                 cases.append(case([S(0, 2000, d_o), K(0, 3000, d_n, [16 + n] * k), L(0, 1000)]))  # complete: returns new, fine
+    # G8: files shorter than their size field whose CRC is that of the zero-padded data (a reader that does not insist on getting
+    # all `size` bytes would accept them), and files whose size field covers trailing bytes that are not there
+    for _ in range(ctx.scale(150, 1500)):
+        d = rb(rng, rng.choice([0, 1, 2, 5, 16, 100, 496, 600]))
+        k = rng.choice([1, 1, 2, 3, 16, 500])
+        t = rng.choice([5000, 5000, 1000, 999])
+        raw = hdr(t, d + bytes(k), None, len(d) + k) + d + bytes(rng.choice([0, 0, k - 1]))
+        cases.append(case([P(0, raw), L(0, 1000), L(0, 1000)], flock=rng.randrange(2)))
+        cases.append(case([P(0, raw), 'G:1000', L(0, 1000)], flock=rng.randrange(2)))
+    # G9: session_sid in front of the storage: valid_sid on cookies around every clause of its test, session_sid::load (Q) on crash
+    # states and with cookies that differ from a stored name only in case / length / prefix
+    good = b'I' + V0.encode()
+    edge = [0x00, 0x2f, 0x30, 0x39, 0x3a, 0x40, 0x41, 0x46, 0x47, 0x60, 0x61, 0x66, 0x67, 0x7f, 0x80, 0xe1, 0xff]
+    vs = [good, b'', b'I', good[:32], good + b'0', good[1:], b'i' + good[1:], b'J' + good[1:], b'H' + good[1:], good[:-1] + b'\0',
+          b'I' + V1.encode(), b'I' + V2.encode(), good.upper(), b'I' + b'f' * 32, b'I' + b'F' * 32]
+    for pos in (0, 1, 2, 16, 31, 32):
+        for e in edge:
+            vs.append(good[:pos] + bytes([e]) + good[pos + 1:])
+    for _ in range(ctx.scale(200, 2000)):
+        ln = rng.choice([31, 32, 33, 33, 33, 34])
+        al = rng.choice([b'0123456789abcdef', b'0123456789abcdef' * 4 + b'ABCDEFg/:`@G', b'0123456789abcdefABCDEFg/:`@G'])
+        vs.append(bytes([rng.choice([0x49, 0x49, 0x49, 0x69])]) + bytes(rng.choice(al) for _ in range(ln - 1)))
+    for i in range(0, len(vs), 8):
+        cases.append(case(['V:' + hexs(v) for v in vs[i:i + 8]]))
+    for _ in range(ctx.scale(300, 3000)):
+        nm = rng.choice([V0, V0, V2, V1])
+        ck = b'I' + nm.encode()
+        d_old, d_new = rb(rng, rng.choice([0, 1, 5, 20])), rb(rng, rng.choice([0, 1, 5, 20]))
+        total = 16 + len(d_new)
+        t_old, t_new = rng.choice([(2000, 3000), (3000, 2000)])
+        ops = [S(0, t_old, d_old)] if rng.random() < 0.7 else []
+        if rng.random() < 0.7:
+            ops.append(K(0, t_new, d_new, [rng.choice([0, 16, total, rng.randrange(16, total + 1)])]))
+        bad = rng.choice([ck.upper(), ck[:-1], ck + b'0', b'i' + ck[1:], ck[1:], ck[:5] + b'g' + ck[6:]])
+        now = rng.choice([1000, 2000, 2001, 2500, 3000, 3001])
+        ops += ['Q:%d:%s' % (now, hexs(rng.choice([ck, ck, bad]))), 'Q:%d:%s' % (now, hexs(ck)), L(0, now)]
+        cases.append(case(ops, names=(nm,), flock=rng.randrange(2)))
     return cases
+
+
+# ------------------------------------------------------------------------------------------------
+# end-to-end cases: the public session API (session_interface -> session_sid -> session_file_storage), harness/C18_session.cpp
+# ------------------------------------------------------------------------------------------------
+TIMEOUT = 1000          # session.timeout of the end-to-end harness (expire=renew: deadline = time of the save + timeout)
+
+
+def emap(m):
+    return ';'.join('%s=%s' % (hexs(k), hexs(v)) for k, v in sorted(m.items())) if m else '-'
+
+
+def esize(m):
+    return sum(4 + len(k) + len(v) for k, v in m.items())
+
+
+def gen_e2e_cases(ctx):
+    rng = ctx.rng
+    cases = []
+    ctr = [0]
+
+    def mk(nbytes=None):
+        ctr[0] += 1
+        m = {b'n': str(ctr[0]).encode()}
+        for _ in range(rng.randrange(0, 3)):
+            m[rng.choice([b'a', b'b', b'user', b'k' * 20])] = rb(rng, rng.choice([0, 1, 3, 10, 40]), rng.choice([None, b'ab']))
+        if nbytes:
+            m[b'blob'] = rb(rng, nbytes)
+        return m
+    # every byte progress of a single-sector save, old state absent / same length / shorter / longer, three clock positions
+    for _ in range(ctx.scale(12, 60)):
+        new = mk()
+        total = 16 + esize(new)
+        for shape in ('absent', 'rewrite'):
+            old = mk()
+            for p in [0] + list(range(16, total + 1)):
+                for (t_r) in (1150, 2000 + rng.choice([0, 100]), 2101):
+                    ops = (['W:1000:' + emap(old)] if shape == 'rewrite' else []) + ['C:1100:%s:%d' % (emap(new), p), 'R:%d' % t_r]
+                    if rng.random() < 0.3:
+                        ops.append('R:%d' % t_r)
+                    cases.append('E ' + ' '.join(ops))
+    # multi-sector values
+    for _ in range(ctx.scale(60, 600)):
+        new, old = mk(rng.choice([480, 600, 1100, 1500])), mk(rng.choice([100, 600, 1300, 2000]))
+        total = 16 + esize(new)
+        k = (total + 511) // 512
+        ps = [rng.choice([0, total, rng.randrange(16, total + 1)]) for _ in range(k)]
+        ops = (['W:1000:' + emap(old)] if rng.random() < 0.8 else []) + ['C:1100:%s:%s' % (emap(new), ','.join(map(str, ps))), 'R:1200']
+        cases.append('E ' + ' '.join(ops))
+    # histories
+    for _ in range(ctx.scale(500, 6000)):
+        clock = 1000
+        ops = []
+        for _ in range(rng.randrange(2, 9)):
+            r = rng.randrange(10)
+            m = mk()
+            if r < 3:
+                ops.append('W:%d:%s' % (clock, emap(m)))
+            elif r < 6:
+                total = 16 + esize(m)
+                ops.append('C:%d:%s:%d' % (clock, emap(m), rng.choice([0, 16, 17, total - 1, total, rng.randrange(16, total + 1)])))
+            elif r < 9:
+                ops.append('R:%d' % clock)
+            else:
+                ops.append('N')
+            clock += rng.choice([0, 1, 10, 500, 999, 1000, 1001])
+        ops.append('R:%d' % clock)
+        cases.append('E ' + ' '.join(ops))
+    return cases
+
+
+def oracle_e2e(case_line, out):
+    """the property on the answers of the public API: a load returns a complete map that was saved (and is not past its deadline) or nothing"""
+    if out.startswith('<crash') or out.startswith('<missing'):
+        return ('crash', 'end-to-end harness died on this script: ' + out[:300])
+    ops = case_line.split()[1:]
+    o = out.split(' ')
+    if len(o) != len(ops):
+        return ('bad-output', 'harness answered %d tokens for %d operations: %s' % (len(o), len(ops), out[:200]))
+    adm, must, forgot = {}, None, False
+    for tok_in, tok_out in zip(ops, o):
+        if 'EXC(' in tok_out:
+            return ('exception', 'operation %s threw: %s' % (tok_in[:60], tok_out[:100]))
+        if tok_out.startswith('BAD-OP') or '{files=' not in tok_out:
+            return ('bad-output', 'unexpected answer %s to %s' % (tok_out[:80], tok_in[:60]))
+        res, files = tok_out[:tok_out.index('{')], int(tok_out[tok_out.index('=', tok_out.index('{')) + 1:-1])
+        a = tok_in.split(':')
+        if a[0] == 'W':
+            now = int(a[1])
+            if a[2] == '-':
+                adm, must = {}, None
+            else:
+                adm, must = {a[2]: now + TIMEOUT}, a[2]
+                if res != 'W[2]' and res != 'W[1]':
+                    return ('save-wrote-nothing', 'a changed session was saved with %s write calls' % res)
+        elif a[0] == 'C':
+            now = int(a[1])
+            if a[2] != '-':
+                adm = dict(adm)
+                adm[a[2]] = now + TIMEOUT
+            must = None
+        elif a[0] == 'N':
+            adm, must, forgot = {}, None, True
+        elif a[0] == 'R':
+            now = int(a[1])
+            if res == 'R=none':
+                if must is not None and now <= adm[must]:
+                    return ('live-session-lost', 'session API reported no session although an intact unexpired one (deadline %d) was stored' % adm[must])
+                if files != 0 and not forgot:
+                    return ('unreadable-file-not-removed', 'load reported no session but left %d file(s) in place' % files)
+                adm, must = {}, None
+            else:
+                got = res[2:]
+                if got not in adm:
+                    return ('load-returned-unsaved-value', 'session API returned the content %s, which no earlier save wrote' % got[:200])
+                if adm[got] < now:
+                    return ('expired-session-returned', 'session API returned a session whose deadline %d is before now %d' % (adm[got], now))
+                if must is not None and got != must and now <= adm[must]:
+                    return ('load-returned-unsaved-value', 'intact session stored but another content was returned: ' + got[:200])
+                adm, must = {got: adm[got]}, got
+        else:
+            return ('bad-output', 'unknown op')
+    return None
 
 
 # ------------------------------------------------------------------------------------------------
@@ -304,6 +470,8 @@ def parse_summary(tok):
 
 
 def oracle(case_line, out):
+    if case_line.startswith('E '):
+        return oracle_e2e(case_line, out)
     if out.startswith('<crash') or out.startswith('<missing'):
         return ('crash', 'harness died on this script: ' + out[:300])
     c = case_line.split()
@@ -327,6 +495,23 @@ def oracle(case_line, out):
         res, summ = parse_summary(tok_out)
         a = tok_in.split(':')
         op = a[0]
+        if op in ('V', 'Q'):
+            ck = unhex(a[-1])
+            ok = len(ck) == 33 and ck[0] == 0x49 and all(ch in b'0123456789abcdef' for ch in ck[1:])
+            if op == 'V':
+                want = 'V=' + hexs(ck[1:]) if ok else 'V=none'
+                if res != want:
+                    return ('valid-sid-wrong', 'valid_sid answered %s for the cookie %s (expected %s)' % (res[:80], ck[:40], want[:80]))
+            hit = [i for i in range(n) if ok and names[i].encode() == ck[1:]]
+            if op == 'Q' and hit:
+                # a well-formed cookie naming file i: judged exactly like a load of that file
+                op, a, res = 'L', ['L', str(hit[0]), a[1]], 'L' + res[1:]
+            else:
+                if op == 'Q' and res != 'Q=none':
+                    return ('session-from-invalid-cookie', 'session_sid::load returned a session for the cookie %s' % ck[:40])
+                if prev != summ:
+                    return ('invalid-cookie-touched-storage', 'an operation with a cookie that names no stored session changed the directory')
+                continue
         if op in ('S', 'K'):
             i, t, d = int(a[1]), int(a[2]), unhex(a[3])
             if op == 'S':
@@ -410,18 +595,25 @@ def oracle(case_line, out):
 
 
 def nontrivial(case_line, out):
-    return ' K:' in case_line or ' P:' in case_line or ' G:' in case_line
+    if case_line.startswith('E '):
+        return ' C:' in case_line
+    return ' K:' in case_line or ' P:' in case_line or ' G:' in case_line or ' V:' in case_line or ' Q:' in case_line
 
 
 def classify(case_line, out):
+    if case_line.startswith('E '):
+        last = [x for x in out.split(' ') if x.startswith('R=')]
+        return 'api:' + ('crash' if ' C:' in case_line else 'save-load') + (':none' if last and last[-1].startswith('R=none') else ':some' if last else '')
     ops = case_line.split()[2:]
     kinds = set(x[0] for x in ops)
-    k = 'crash' if 'K' in kinds else 'garbage' if 'P' in kinds else 'gc' if 'G' in kinds else 'save-load'
+    k = 'cookie' if kinds == {'V'} else 'crash' if 'K' in kinds else 'garbage' if 'P' in kinds else 'gc' if 'G' in kinds else 'save-load'
     if k == 'crash':
         ks = [x for x in ops if x[0] == 'K']
         ns = len(ks[-1].split(':')[4].split(','))
         k += ':1-sector' if ns <= 1 else ':%d-sectors' % ns if ns <= 3 else ':4+sectors'
     last = [x for x in out.split(' ') if x.startswith('L=')]
+    if 'Q' in kinds:
+        k += ':sid'
     return k + (':none' if last and last[-1].startswith('L=none') else ':some' if last else '')
 
 
@@ -432,9 +624,10 @@ def run(ctx):
     res = vlib.coq_props('C18')
     ctx.proof(res)
     ctx.coverage['trusted_base'] = [
-        'Coq 8.16.1 kernel, vm_compute (collision witness, CRC table sweep); no native_compute',
+        'Coq 8.16.1 kernel, vm_compute (collision witness, examples, 256-entry CRC table sweep); no native_compute',
         'tools/cxx2v.py + clang JSON AST (CRC table of private/crc32.h, via harness/C18_crc_tu.cpp)',
         'extraction: ExtrOcamlBasic only, OCaml 4.13.1',
+        'harness/C18_session.cpp (same interposition and materialisation, public session API, judged by the oracle only)',
         'harness/C18_filestore.cpp (interposed write()/time(), crash-state materialisation from the recorded writes, own bitwise CRC for '
         'file summaries), ocaml/C18_driver.ml, checks/C18.py (generators; oracle with Python struct/zlib as reference reader)',
         'hand model of session_posix_file_storage.cpp control flow (coq/C18/Defs.v), tied by correspondence',
@@ -452,23 +645,42 @@ def run(ctx):
     mexe, err = vlib.build_model('C18', 'C18_driver.ml', 'c18m')
     if not mexe:
         ctx.broke('model extraction/build failed', err)
-    cases = ctx.replay_cases if ctx.replay_cases is not None else vlib.corpus_cases('C18') + gen_cases(ctx)
+    exe2, err = vlib.build_harness('C18_session', ['C18_session.cpp'])
+    if not exe2:
+        ctx.broke('end-to-end harness build failed', err)
+        return
+    cases = ctx.replay_cases if ctx.replay_cases is not None else vlib.corpus_cases('C18') + gen_cases(ctx) + gen_e2e_cases(ctx)
+    ecases = [c for c in cases if c.startswith('E ')]
+    cases = [c for c in cases if not c.startswith('E ')]
+    ctx.coverage['statement_hypotheses'] = ['s64_ok t', 'bytes_ok d', 'small d (< 2^31 bytes)', 'ps_ok ps (per-sector progress 0 or >= 16)',
+                                            'old_ok F (absent/empty or >= 16 bytes; preserved by every history: C18_history_old_ok)', '0 < now']
     ctx.coverage['rule'] = ('a case is a script on the real session_file_storage in a scratch directory: complete saves S, crashed saves K (the real '
                             'save runs with write() recorded, then sector s of the file is set to the state after p_s bytes of the recorded stream '
                             'on top of the earlier content), raw garbage P, load L at a given clock, gc G at a given clock, remove X; after every '
-                            'operation the directory (length + CRC of every file) is reported. Exhaustive: payloads 0..6 bytes x old state '
+                            'operation the directory (length + CRC of every file) is reported. Exhaustive: payloads 0..6 bytes (0..11 thorough) x old state '
                             '{absent, shorter, equal, longer, garbage} x every byte progress x 3 clock positions x both deadline orders. Sampled '
-                            '(seeded): 12 multi-sector sizes around sector boundaries x 4 old shapes x (stream prefix x all sector subsets, and '
+                            '(seeded): 5 (18 thorough) multi-sector sizes around sector boundaries x 4 old shapes x (stream prefix x all sector subsets, and '
                             'independent per-sector progress); int64 deadline boundaries; garbage headers/lengths/names; gc directories; random '
-                            'histories; constructed CRC collisions. Non-trivial = script contains a crashed save, a garbage file or a gc; '
-                            'distinct = distinct script lines.')
+                            'histories; constructed CRC collisions; files shorter than their size field with the CRC of the zero-padded data. Non-trivial = script contains a crashed save, a garbage file or a gc; '
+                            'distinct = distinct script lines. A second family (lines starting with E, no model, oracle only) drives the public API: '
+                            'session_interface over a session_pool with file storage (session_interface::save/load -> session_sid -> '
+                            'session_file_storage) with one cookie jar: saves W, crashed saves C (materialised from the recorded write() calls of the '
+                            'real save as above, every byte progress for single-sector values), loads R at clocks around the deadlines, cookie loss N; '
+                            'a load must return a complete key/value map that an earlier save wrote and whose deadline has not passed, or nothing.')
     ctx.coverage['exhaustive'] = False
     # tmpfs: the scripts create and unlink tens of thousands of small files (ext4 journalling makes that 50x slower)
     shm = '/dev/shm' if os.access('/dev/shm', os.W_OK) else ctx.workdir
     base = os.path.join(shm, 'C18-run-%d' % os.getpid())
     os.makedirs(base, exist_ok=True)
     try:
-        vlib.differential(ctx, cases, exe, mexe, oracle, nontrivial, classify, impl_env={'C18_DIR': base})
+        if cases:
+            vlib.differential(ctx, cases, exe, mexe, oracle, nontrivial, classify, impl_env={'C18_DIR': base})
+        if ecases:
+            # no model here: the oracle alone judges what the public session API returns
+            vlib.differential(ctx, ecases, exe2, None, oracle, nontrivial, classify, impl_env={'C18_DIR': base},
+                              what='end-to-end session API')
+            ctx.coverage['samples'].append({'case': ecases[len(ecases) // 2][:300], 'impl': 'see rule (end-to-end script, oracle only)', 'model': None})
     finally:
         shutil.rmtree(base, ignore_errors=True)
-    ctx.coverage['crash_states'] = sum(c.count(' K:') for c in cases)
+    ctx.coverage['api_level_cases'] = len(ecases)
+    ctx.coverage['crash_states'] = sum(c.count(' K:') for c in cases) + sum(c.count(' C:') for c in ecases)
